@@ -272,3 +272,74 @@ class IformSym(Contract):
         goal = z3.If(cond.is_none(j0), CDF(j0, cg((k0, j0)), Fraction(0)) == Phi(sg((k0, j0))),
                      CDF(j0, cg((k0, j0)), cg((k0, cond.idx(j0)))) == Phi(sg((k0, j0))))
         cx.oblige("post.rosenblatt", goal, "post", "for every point and every variable: model cdf (same row, declared column) of the point = Phi(sphere point)")
+
+
+@contract(CT + "ISORMContour._compute", ["C01"], [dict()], name="isorm.compute.any_n_dim")
+class IsormSym(Contract):
+    """ISORM for a SYMBOLIC number of variables and an arbitrary admissible conditional_on.
+    Outer loop (variables): through an arbitrary fixed cell (k0, j0) - once column j0 is written it satisfies the
+    Rosenblatt clause and is never written again.  Inner loop (points of a conditional variable i): rows below j of
+    column i hold the conditional quantile given the same row's conditioning value; every other cell is unchanged."""
+
+    def setup(self, itp, case):
+        itp.summaries["virocon._nsphere.NSphere"] = nsphere_summary
+        me = self
+
+        def clause(cx, dg, sg, k0, j0):
+            cond = me.cond
+            return z3.If(cond.is_none(j0), CDF(j0, dg((k0, j0)), Fraction(0)) == Phi(sg((k0, j0))),
+                         CDF(j0, dg((k0, j0)), dg((k0, cond.idx(j0)))) == Phi(sg((k0, j0))))
+
+        def outer_inv(itp_, env, kc):
+            cx = itp_.cx
+            data, sphere = env.lookup("data"), env.lookup("sphere_points")
+            me.data, me.sphere = data, sphere
+            k0, j0 = cx.sym("k0", "int"), cx.sym("j0", "int")
+            return [("cell_done", T.implies(T.land(T.ge(j0, 0), T.lt(j0, kc), T.lt(j0, me.nd)), clause(cx, data.getter(), sphere.getter(), k0, j0)))]
+        itp.loop_specs[(CT + "ISORMContour._compute", 0)] = LoopSpec(outer_inv)
+
+        def inner_inv(itp_, env, jc):
+            cx = itp_.cx
+            data, sphere = env.lookup("data"), env.lookup("sphere_points")
+            i = term_of(env.lookup("i"))
+            cidx = term_of(env.lookup("cond_idx"))
+            dg, sg = data.getter(), sphere.getter()
+            k0, j0 = cx.sym("k0", "int"), cx.sym("j0", "int")
+            return [
+                # the arbitrary row k0 of the column being filled
+                ("row_done", T.implies(T.lt(k0, jc), T.eq(dg((k0, i)), ICDF(i, Phi(sg((k0, i))), dg((k0, cidx)))))),
+                # columns finished earlier keep satisfying the clause (this loop writes column i only)
+                ("earlier_cell_kept", T.implies(T.land(T.ge(j0, 0), T.lt(j0, i)), clause(cx, dg, sg, k0, j0))),
+            ]
+        itp.loop_specs[(CT + "ISORMContour._compute", 1)] = LoopSpec(inner_inv)
+
+    def inputs(self, itp, case):
+        cx = itp.cx
+        self.model, self.nd, self.cond, self.dists = make_symbolic_model(cx, min_dim=2)
+        self.obj, self.alpha, self.npts = contour_self(cx, "ISORMContour", self.model)
+        k0 = cx.sym("k0", "int")
+        cx.assume(T.land(T.ge(k0, 0), T.lt(k0, self.npts)), "arbitrary point k0")
+        return [self.obj], {}
+
+    def post(self, itp, case, inp, out):
+        cx = itp.cx
+        if out.outcome != "return":
+            cx.oblige("post.returns", False, "post", f"raised {out.exc}: {out.msg}")
+            return
+        f = self.obj.fields
+        coords, sphere, beta = f.get("coordinates"), f.get("sphere_points"), f.get("beta")
+        if not (isinstance(coords, SArr) and isinstance(sphere, SArr) and is_scalar(beta)):
+            cx.oblige("post.attributes", False, "post")
+            return
+        b = term_of(beta)
+        c = CHI2INV(1 - T.zr(self.alpha), T.zr(self.nd), z3.RealVal(0), z3.RealVal(1))
+        cx.oblige("post.beta", T.land(T.ge(b, 0), T.eq(T.mul(b, b), c)), "post", "beta = sqrt(chi2_n^-1(1 - alpha)), n = the model's number of variables")
+        cx.oblige("post.shape", T.land(T.eq(coords.shape[0], self.npts), T.eq(coords.shape[1], self.nd), T.eq(sphere.shape[0], self.npts), T.eq(sphere.shape[1], self.nd)), "post")
+        k0, j0 = cx.sym("k0", "int"), cx.sym("j0", "int")
+        cx.assume(T.land(T.ge(j0, 0), T.lt(j0, self.nd)), "arbitrary variable j0")
+        cg, sg = coords.getter(), sphere.getter()
+        cond = self.cond
+        goal = z3.If(cond.is_none(j0), CDF(j0, cg((k0, j0)), Fraction(0)) == Phi(sg((k0, j0))),
+                     CDF(j0, cg((k0, j0)), cg((k0, cond.idx(j0)))) == Phi(sg((k0, j0))))
+        cx.oblige("post.rosenblatt", goal, "post", "for every point and every variable: model cdf (same row, declared column) of the point = Phi(sphere point)")
+        cx.oblige("frame.model", not self.model.writes, "frame")
